@@ -193,7 +193,10 @@ def add_extras(case, recipe, root, exp, res):
 def run_case(case, ctx):
     res = Res()
     recipe = make_recipe(case, ctx)
-    root = ctx.scratch / f"c01-{case['k']}"
+    # the project directory's own name is part of "every project tree": blanks, non-ASCII, characters that mean something to glob
+    rootname = ["proj", "proj", "proj", "pr[v2]", "p*x", "q?y", "sp ace", "ünï", "a[b", "x]y[", "{z}"][case["k"] % 11]
+    top = ctx.scratch / f"c01-{case['k']}"
+    root = top / rootname
     try:
         unreadable = trees.build(recipe, root, ctx.state["styles"])
         exp = trees.spec_expect(recipe)
@@ -239,5 +242,5 @@ def run_case(case, ctx):
                           "licenses": [x["name"] for x in recipe["licenses"]], "expected": trees.jsonable({c: exp[c] for c in COLLS}),
                           "exit": r.exit_code}
     finally:
-        shutil.rmtree(root, ignore_errors=True)
+        shutil.rmtree(top, ignore_errors=True)
     return res.out()
